@@ -97,3 +97,72 @@ def run_generic_family(order):
     finally:
         sys.modules.pop(mod.__name__, None)
     return None
+
+
+def _make_nested_postponed(mod, parent_mode, inner_kind, fmt):
+    """Parent(n: int, inner: Optional[Inner] = None) where Inner's own annotations name a class (Later) that does not exist yet.
+    parent_mode: "eager" (compiled at definition: the nested Inner postpones itself), "lazy" (Config.lazy_compilation: compiled
+    at the first call) or "postponed" (the parent has an unresolved annotation of its own, resolved before its first call).
+    inner_kind: "plain" (no mixin) | "mixin".  fmt: "dict" | "json" (format methods of a mixin Inner are compiled on demand)."""
+    from mashumaro.config import BaseConfig
+    from mashumaro.mixins.json import DataClassJSONMixin
+    base = DataClassJSONMixin if fmt == "json" else DataClassDictMixin
+    mod.typing = typing
+    ins = {"__module__": mod.__name__, "__qualname__": "Inner", "__annotations__": {"k": int, "later": "typing.Optional[Later]"}, "later": None}
+    Inner = dataclasses.dataclass(type("Inner", () if inner_kind == "plain" else (base,), ins))
+    mod.Inner = Inner
+    ann = {"n": int, "inner": typing.Optional[Inner]}
+    pns = {"__module__": mod.__name__, "__qualname__": "Parent", "inner": None}
+    if parent_mode == "postponed":
+        ann["soon"] = "typing.Optional[Soon]"
+        pns["soon"] = None
+    pns["__annotations__"] = ann
+    if parent_mode == "lazy":
+        pns["Config"] = type("Config", (BaseConfig,), {"lazy_compilation": True})
+    Parent = dataclasses.dataclass(type("Parent", (base,), pns))
+    mod.Parent = Parent
+    if parent_mode == "postponed":
+        mod.Soon = dataclasses.dataclass(type("Soon", (base,), {"__module__": mod.__name__, "__qualname__": "Soon", "__annotations__": {"z": int}}))
+
+    def define_later():
+        mod.Later = dataclasses.dataclass(type("Later", (base,), {"__module__": mod.__name__, "__qualname__": "Later", "__annotations__": {"d": date}}))
+        return "defined"
+    return Parent, Inner, define_later
+
+
+def run_nested_postponed_family(parent_mode, inner_kind, fmt, order):
+    """every order of the operations in which 'define' precedes the operations that need Later gives the documented results;
+    operations on values WITHOUT a nested Inner never need Later (compilation timing must not matter: the eager twin returns them)"""
+    import json as _json
+    mod = _module()
+    try:
+        Parent, Inner, define_later = _make_nested_postponed(mod, parent_mode, inner_kind, fmt)
+        soon = {"soon": None} if parent_mode == "postponed" else {}
+        if fmt == "json":
+            enc, dec = (lambda x: _json.loads(x.to_json())), (lambda d: Parent.from_json(_json.dumps(d)))
+        else:
+            enc, dec = (lambda x: x.to_dict()), Parent.from_dict
+        ops = {
+            "define": define_later,
+            "none.to": lambda: enc(Parent(1)),
+            "none.from": lambda: dataclasses.asdict(dec({"n": 2})),
+            "full.to": lambda: enc(Parent(3, Inner(4, mod.Later(date(2024, 2, 28))))),
+            "full.from": lambda: dataclasses.asdict(dec({"n": 5, "inner": {"k": 6, "later": {"d": "2023-01-02"}}})),
+        }
+        expected = {
+            "define": "defined",
+            "none.to": {"n": 1, "inner": None, **soon},
+            "none.from": {"n": 2, "inner": None, **soon},
+            "full.to": {"n": 3, "inner": {"k": 4, "later": {"d": "2024-02-28"}}, **soon},
+            "full.from": {"n": 5, "inner": {"k": 6, "later": {"d": date(2023, 1, 2)}}, **soon},
+        }
+        for k in order:
+            try:
+                got = ops[k]()
+            except Exception as e:  # noqa: BLE001
+                return f"{k}: {type(e).__name__}: {e}"[:200]
+            if got != expected[k]:
+                return f"{k}: {got!r} != {expected[k]!r}"[:300]
+    finally:
+        sys.modules.pop(mod.__name__, None)
+    return None
